@@ -5,7 +5,9 @@ use crate::{
     lsp_state::LspState,
     uri_file_path_ext::UriFilePathExt,
 };
-use common_lang_types::{EntityName, Span, relative_path_from_absolute_and_working_directory};
+use common_lang_types::{
+    EmbeddedLocation, EntityName, Span, relative_path_from_absolute_and_working_directory,
+};
 use isograph_lang_types::{
     ClientObjectSelectableNameWrapperParent, ClientScalarSelectableNameWrapperParent,
     DefinitionLocation, IsographResolvedNode,
@@ -183,7 +185,7 @@ pub fn on_goto_definition_impl<TCompilationProfile: CompilationProfile>(
                         isograph_location_to_lsp_location(
                             db,
                             location,
-                            &db.get_schema_source().content,
+                            text_of_location(db, location),
                         )
                     })
                     .map(lsp_location_to_scalar_response)
@@ -202,7 +204,7 @@ pub fn on_goto_definition_impl<TCompilationProfile: CompilationProfile>(
                         isograph_location_to_lsp_location(
                             db,
                             location,
-                            &db.get_schema_source().content,
+                            text_of_location(db, location),
                         )
                     })
                     .map(lsp_location_to_scalar_response)
@@ -220,6 +222,22 @@ pub fn on_goto_definition_impl<TCompilationProfile: CompilationProfile>(
     };
 
     goto_response.wrap_ok()
+}
+
+/// The text that `location` points into: the iso literal file it names, if there is one
+/// (open buffer or disk), otherwise the schema. Offsets must be converted to positions
+/// against the text of the file they belong to.
+fn text_of_location<TCompilationProfile: CompilationProfile>(
+    db: &IsographDatabase<TCompilationProfile>,
+    location: EmbeddedLocation,
+) -> &str {
+    match read_iso_literals_source_from_relative_path(
+        db,
+        location.text_source.relative_path_to_source_file,
+    ) {
+        Some(source) => source.content.reference(),
+        None => db.get_schema_source().content.reference(),
+    }
 }
 
 fn lsp_location_to_scalar_response(location: lsp_types::Location) -> GotoDefinitionResponse {
